@@ -21,6 +21,8 @@ pub enum Case {
     Layout { prog: Vec<E>, tape: Vec<u16>, crlf: bool },
     Spelling(E),
     Name(String),
+    /// two spellings of one program that differ in optional layout only
+    Text { canonical: String, varied: String },
 }
 
 pub struct Parsing;
@@ -152,7 +154,9 @@ impl Check for Parsing {
                 pr.redundancy = true;
                 let mut varied = pr.program(prog);
                 fn has_multiline_string(e: &E) -> bool {
-                    matches!(e, E::Str(s) if s.contains('\n') || s.contains('\r')) || e.children().iter().any(|c| has_multiline_string(c))
+                    matches!(e, E::Str(s) if s.contains('\n') || s.contains('\r'))
+                        || matches!(e, E::Rec(items) if items.iter().any(|i| matches!(i, crate::gen_::expr::RE::Pair(k, _) if k.contains('\n') || k.contains('\r'))))
+                        || e.children().iter().any(|c| has_multiline_string(c))
                 }
                 // CRLF conversion must not touch line breaks inside string literals
                 if *crlf && !prog.iter().any(has_multiline_string) {
@@ -178,6 +182,24 @@ impl Check for Parsing {
                 let got: Vec<_> = a.iter().filter_map(|s| s.stmt.for_format()).collect();
                 if want != got {
                     fail!("layout:canonical-misparsed", "canonical text {:?} parses to a different program than it was rendered from", canonical);
+                }
+                Ok(())
+            }
+            Case::Text { canonical, varied } => {
+                ctx.label("layout-designed");
+                ctx.nontrivial(hash_str(varied));
+                let a = match parse_program(canonical, false) {
+                    Ok(a) => a,
+                    Err(e) => fail!("layout:canonical-rejected", "canonical text {:?} does not parse: {}", canonical, e),
+                };
+                let b = match parse_program(varied, false) {
+                    Ok(b) => b,
+                    Err(e) => fail!(format!("layout:rejected:{}", layout_feature(varied, &e)), "layout variant does not parse: {}\n--- variant:\n{}\n--- canonical:\n{}", e, varied, canonical),
+                };
+                let sa: Vec<_> = a.iter().map(|s| s.stmt.clone()).collect();
+                let sb: Vec<_> = b.iter().map(|s| s.stmt.clone()).collect();
+                if sa != sb {
+                    fail!("layout:different-program:designed", "layout variant parses to a different program\n--- variant:\n{}\n--- canonical:\n{}", varied, canonical);
                 }
                 Ok(())
             }
@@ -323,7 +345,38 @@ fn names() -> Vec<String> {
     v
 }
 
+/// pipelines whose operand is an unparenthesised lambda, continued on the next line with and
+/// without an end-of-line comment after the lambda body
+fn lambda_pipeline_layouts() -> Vec<Case> {
+    let mut v = Vec::new();
+    let ops = ["via", "into", "where"];
+    let rhs = |op: &str| match op {
+        "into" => "len",
+        "where" => "y => y != 2",
+        _ => "y => y + 1",
+    };
+    for op1 in ops {
+        for op2 in ops {
+            for body in ["x * 2", "x > 1", "[x, x]", "x"] {
+                for head in ["", "r = ", "output r = "] {
+                    let left = if op1 == "into" { "[1, 2, 3]" } else { "[1, 2, 3]" };
+                    let canonical = format!("{}({} {} (x => {})) {} ({})", head, left, op1, body, op2, rhs(op2));
+                    for sep in [" ", "\n  ", " // c\n  ", " // c\n", "\n", " // via x\n  ", "  //\n\t"] {
+                        for paren_rhs in [false, true] {
+                            let r = if paren_rhs { format!("({})", rhs(op2)) } else { rhs(op2).to_string() };
+                            v.push(Case::Text { canonical: canonical.clone(), varied: format!("{}{} {} x => {}{}{} {}", head, left, op1, body, sep, op2, r) });
+                            v.push(Case::Text { canonical: canonical.clone(), varied: format!("{}{} {} (x) => {}{}{} {}", head, left, op1, body, sep, op2, r) });
+                        }
+                    }
+                }
+            }
+        }
+    }
+    v
+}
+
 pub fn run(ctx: &mut Ctx) {
+    ctx.run_enum(&Parsing, lambda_pipeline_layouts().into_iter(), false);
     ctx.run_enum(&Parsing, enumerated_trees().into_iter().map(Case::Tree), true);
     ctx.run_enum(&Parsing, names().into_iter().map(Case::Name), true);
     let tape = || prop::collection::vec(any::<u16>(), 0..200);
